@@ -97,6 +97,32 @@ class StateError(Exception):
     pass
 
 
+TOOLNAMES = ["e2fsck", "debugfs", "dumpe2fs", "tune2fs", "resize2fs", "e2image", "e2freefrag",
+             "e2undo", "mke2fs"]
+
+
+class Tools:
+    """The plain build's binaries, copied into the run's work directory so that a concurrent
+    rebuild of another tree (which prunes the shared build cache) cannot pull them away in
+    the middle of a run."""
+
+    def __init__(self, bindir):
+        self.bindir = bindir
+
+    def tool(self, name):
+        return os.path.join(self.bindir, name)
+
+    @classmethod
+    def install(cls, b, bindir, env):
+        for t in TOOLNAMES:
+            shutil.copy2(b.tool(t), os.path.join(bindir, t))
+        os.symlink("tune2fs", os.path.join(bindir, "e2label"))      # e2label is argv[0]-driven
+        conf = os.path.join(bindir, "mke2fs.conf")
+        shutil.copy(env["MKE2FS_CONFIG"], conf)
+        env["MKE2FS_CONFIG"] = conf
+        return cls(bindir)
+
+
 def _dbg(b, env, img, cmds, sdir, write=True, timeout=WATCHDOG):
     script = os.path.join(sdir, "cmd-%s.txt" % os.path.basename(img))
     with open(script, "w") as f:
@@ -398,7 +424,7 @@ def build_state(b, env, spec, corpus_img, sdir):
 
 def _build_state_job(arg):
     root, env, spec, corpus_img, sdir = arg
-    b = build.Build(root, "plain")
+    b = Tools(root)
     try:
         st = build_state(b, env, spec, corpus_img, sdir)
         st["ok"] = True
@@ -624,9 +650,9 @@ def kw_lines(text):
     return out
 
 
-def run_pair(root, env, st, inv, do_strace, pdir, e2label):
+def run_pair(root, env, st, inv, do_strace, pdir):
     """One pair.  st: dict(img, jnl, bs, backup).  Returns a small dict."""
-    b = build.Build(root, "plain")
+    b = Tools(root)
     os.makedirs(pdir)
     res = {"inv": inv, "straced": bool(do_strace), "setup": None}
     try:
@@ -661,7 +687,7 @@ def run_pair(root, env, st, inv, do_strace, pdir, e2label):
             res["setup"] = "e2image rc=%s" % r.rc
             res["setup_ok"] = os.path.exists(os.path.join(pdir, "t.e2i"))
             targets["e2i"] = os.path.join(pdir, "t.e2i")
-        exe = e2label if tool == "e2label" else tool if tool.startswith("/") else b.tool(tool)
+        exe = tool if tool.startswith("/") else b.tool(tool)
         argv = [exe] + args
         trace = os.path.join(pdir, "trace.txt")
         if do_strace:
@@ -712,16 +738,16 @@ def run_pair(root, env, st, inv, do_strace, pdir, e2label):
 
 
 def _pair_job(arg):
-    root, env, st, inv, do_strace, pdir, e2label = arg
+    root, env, st, inv, do_strace, pdir = arg
     t0 = time.time()
     try:
-        res = run_pair(root, env, st, inv, do_strace, pdir, e2label)
-        if res.get("timed_out"):
-            # a timeout is re-run once before it is called a hang
-            res2 = run_pair(root, env, st, inv, do_strace, pdir + "-again", e2label)
-            res2["first_timed_out"] = True
-            res2["first_diffs"] = res.get("diffs")
-            res = res2
+        res = run_pair(root, env, st, inv, do_strace, pdir)
+        if (res.get("timed_out") and not res["diffs"] and
+                not (res.get("trace") or {}).get("n_target_writes")):
+            # a timeout is re-run once before it is called a hang (a run that was killed after
+            # it had modified the target is judged as it is)
+            res = run_pair(root, env, st, inv, do_strace, pdir + "-again")
+            res["first_timed_out"] = True
     except Exception as e:          # harness trouble must not look like "held"
         res = {"inv": inv, "crash": "%s: %s" % (type(e).__name__, e)}
     res["state"] = st["spec"]
@@ -731,8 +757,8 @@ def _pair_job(arg):
 
 # ---------------------------------------------------------------------------------------
 
-def gen_specs(tier, seed, n):
-    """Base images of this run and the state specs (pristine ones first)."""
+def choose_bases(tier, seed, n):
+    """Corpus images this run derives its states from."""
     rng = run.rng_for(seed, "C13", "plan")
     names = zoo.corpus_names("thorough")
     pool = [x for x in zoo.corpus_names(tier) if x not in REQUIRED_BASES]
@@ -777,15 +803,14 @@ def main(tier, seed, replay=None, scale=1.0):
     every = STRACE_EVERY[tier]
     with run.Work("C13") as w:
         cdir, sdir, pdir = w.sub("corpus"), w.sub("states"), w.sub("pairs")
-        e2label = os.path.join(w.sub("bin"), "e2label")
-        os.symlink(plain.tool("tune2fs"), e2label)
+        tools = Tools.install(plain, w.sub("bin"), env)
 
         rcase = None
         if replay:
             rcase = json.load(open(os.path.join(replay, "case.json")))["case"]
             bases = [rcase["spec"]["base"]]
         else:
-            bases = gen_specs(tier, seed, n)
+            bases = choose_bases(tier, seed, n)
         paths = dict(zip(bases, run.pmap(_unpack_job, [(x, cdir) for x in bases])))
         binfo = {x: read_sb(paths[x]) for x in bases}
         for x in bases:
@@ -801,7 +826,7 @@ def main(tier, seed, replay=None, scale=1.0):
             specs = plan_states(seed, n, bases, binfo)
 
         def make_states(chunk):
-            jobs = [(plain.root, env, s, paths[s["base"]], sdir) for s in chunk]
+            jobs = [(tools.bindir, env, s, paths[s["base"]], sdir) for s in chunk]
             out = []
             for st in run.pmap(_build_state_job, jobs):
                 if not st["ok"]:
@@ -821,8 +846,8 @@ def main(tier, seed, replay=None, scale=1.0):
                     if only_inv and inv != only_inv:
                         continue
                     tr = force_strace or ((st["spec"]["idx"] + j + seed) % every == 0)
-                    jobs.append((plain.root, env, st, inv, tr,
-                                 os.path.join(pdir, "p%d-%d" % (st["spec"]["idx"], j)), e2label))
+                    jobs.append((tools.bindir, env, st, inv, tr,
+                                 os.path.join(pdir, "p%d-%d" % (st["spec"]["idx"], j))))
             return jobs
 
         # ---- controls: a writing invocation must trip both witnesses ------------------
@@ -834,8 +859,8 @@ def main(tier, seed, replay=None, scale=1.0):
             rep.harness_error("cannot build the control state")
         else:
             for j, cinv in enumerate(CONTROLS):
-                r = _pair_job((plain.root, env, ctl_state[0], cinv, True,
-                               os.path.join(pdir, "ctl%d" % j), e2label))
+                r = _pair_job((tools.bindir, env, ctl_state[0], cinv, True,
+                               os.path.join(pdir, "ctl%d" % j)))
                 t = r.get("trace") or {}
                 cls = {c for c, _ in (r.get("diffs") or {}).get("img", [])}
                 rep.extra.setdefault("controls", {})[cinv] = {
@@ -912,7 +937,9 @@ def main(tier, seed, replay=None, scale=1.0):
                     totals["straced"] += 1
                     rep.count("straced_pairs")
                     rep.count("straced_" + tool)
-                    if not t or t.get("missing") or not t["calls"]:
+                    if r["timed_out"]:
+                        pass            # strace was killed by the watchdog; inconclusive anyway
+                    elif not t or t.get("missing") or not t["calls"]:
                         rep.harness_error("strace recorded nothing for %s (state %d): %s" %
                                           (inv, spec["idx"], r["tail"][-200:]))
                         t = None
@@ -931,8 +958,8 @@ def main(tier, seed, replay=None, scale=1.0):
                         rep.count("straced_pairs_multithreaded")
                     if t["target_open_ro"] or t["target_open_rw"]:
                         totals["target_open_seen"] += 1
-                    if t["target_open_rw"]:
-                        rep.add("tools_opening_target_rw_INFO", inv)
+                    for role in t["target_open_rw_roles"]:
+                        rep.add("tools_opening_target_rw_INFO", "%s (%s)" % (inv, role))
                     for f in t["nontarget_files"]:
                         rep.add("nontarget_files_written", f)
                     if r["outlen"] and not t["nontarget_writes"]:
